@@ -591,9 +591,10 @@ static Outcome run_variant(const Case &c) {
       o.fail("query-syntax", ctx + err + "; query=" + r_qs);
       return o;
     }
-    // the query is pasted after '?' in a URL: it must consist of URL query characters only
+    // the query is pasted after '?' in a URL: it must consist of RFC 3986 query characters only
+    // (unreserved / pct-encoded / sub-delims / ':' / '@' / '/' / '?')
     for (unsigned char ch : r_qs)
-      if (!(unreserved(ch) || ch == '%' || ch == '&' || ch == '=')) {
+      if (!(unreserved(ch) || ch == '%' || (ch && strchr("!$&'()*+,;=:@/?", ch)))) {
         o.fail("query-syntax", ctx + "query string contains the unencoded character '" + std::string(1, (char)ch) + "': " + r_qs);
         return o;
       }
@@ -624,6 +625,10 @@ static Outcome run_variant(const Case &c) {
     std::string f = fmt_utc(shim_time_value(k));
     from_clock = from_clock || f == amzdate;
     readings += (k ? "," : "") + f;
+  }
+  if (!from_clock && variant == 1 && !err.empty() && amzdate.size() != 16) {
+    o.fail("auth-format", ctx + err + "; query=" + r_qs);
+    return o;
   }
   if (!from_clock) {
     time_t tt = (time_t)t0;
